@@ -43,6 +43,9 @@ def exact_guard(f, sy, blocks, also_ok=()):
     sufficient = when every controlling switch takes its controlling edge, no return is reachable
     without passing one of `blocks`."""
     ce = common_controlling(f, blocks)
+    # conditions whose other arm only panics (assert!/debug_assert!/invariant!) are preconditions, not part of the guard
+    from ..mir import is_panic_call
+    ce = {(s, e) for (s, e) in ce if not all(is_panic_call(f.blocks[x]["term"]) for x in f.lsuccs(s) if x != e)}
     conds = []
     for s, e in sorted(ce):
         c = edge_cond(f, sy, s, e)
